@@ -2526,12 +2526,18 @@ C18_DOC = {"s": ["abc", "Hello World", "", "10", "-7", "x%20y%2Fz", "true", "FAL
            "tails": ["a", "b", ""], "delims": ["x", "y,", ",z"], "empties": ["", ""], "dashes": ["-", "a-", " | ", "--"], "single": [""]}
 
 
+C18_LITS = {"lvs": "abc", "lvl": ["a", "b", ""], "lvi": 5, "lvb": True}
+C18_LETS = 'let lvs = "abc"\nlet lvl = ["a", "b", ""]\nlet lvi = 5\nlet lvb = true\n'
+
+
 def c18_cases(ctx, rng):
     fs = ["count", "to_upper", "to_lower", "url_decode", "substring", "join", "json_parse", "parse_int", "parse_float",
           "parse_string", "parse_boolean", "parse_epoch", "regex_replace"]
     queries = ["s[*]", "n[*]", "f[*]", "b[*]", "mixed[*]", "one", "strs[*]", "ints[*]", "json", "zz", "s[*].zz", "e[*]", "m.*",
                "mixed", "z", "s[0]", "s[3]", "s[4]", "s[5]", "s[6]", "s[7]", "s[8]", "s[9]", "s[15]", "s[16]", "s[17]", "some s[*].zz",
-               "tails[*]", "delims[*]", "empties[*]", "dashes[*]", "single[*]"]
+               "tails[*]", "delims[*]", "empties[*]", "dashes[*]", "single[*]",
+               # variables bound to literals (their values are `Literal` query results)
+               "%lvs", "%lvl", "%lvi", "%lvb"]
     cases = []
     per = 6 if ctx.thorough() else 2
     for f in fs:
@@ -2554,11 +2560,11 @@ def c18_cases(ctx, rng):
                     call = "%s(%s)" % (f, q)
                 for form in ("let-rule", "let-file", "inline-rhs") if _ == 0 else ("let-rule",):
                     if form == "let-rule":
-                        rules = "rule t {\nlet r = %s\n%%r == \"__never__\"\n}\n" % call
+                        rules = C18_LETS + "rule t {\nlet r = %s\n%%r == \"__never__\"\n}\n" % call
                     elif form == "let-file":
-                        rules = "let r = %s\nrule t {\n%%r == \"__never__\"\n}\n" % call
+                        rules = C18_LETS + "let r = %s\nrule t {\n%%r == \"__never__\"\n}\n" % call
                     else:
-                        rules = "rule t {\nprobe == %s\n}\n" % call
+                        rules = C18_LETS + "rule t {\nprobe == %s\n}\n" % call
                     cases.append({"rules": rules, "data": json.dumps(dict(C18_DOC, probe="__never__")), "f": f, "q": q, "raw": raw, "form": form})
     # composites
     for n_ in [0, 1, -5, 42, 9223372036854775807, -9223372036854775808]:
@@ -2577,6 +2583,10 @@ def resolve_ref_query(q, doc):
         q = q[5:]
     import re as _re
     cur, unres = [doc], False
+    if q.startswith("%"):
+        # a variable bound to a literal (C18_LETS): one value, the literal
+        m = _re.match(r"%(\w+)", q)
+        cur, q = [C18_LITS[m.group(1)]], q[m.end():]
     for part in _re.findall(r"[A-Za-z]+|\[\*\]|\[\d+\]|\*", q):
         nxt = []
         for v in cur:
@@ -3087,7 +3097,7 @@ register("C14", ["Guard.Properties.C14"], run_C14)
 
 def c19_template(g, clean=True):
     types = ["AWS::S3::Bucket", "AWS::EC2::Volume", "Custom::Thing"][: g.ch([1, 2, 3])]
-    strs = ["a", "b", "us-west-2b", "x y", "10", "true", "é", "C:\\temp\\logs", "^\\d{1,3}$", "tab\there", "a\\"] + ([] if clean else [" lead", "trail "])
+    strs = ["a", "b", "us-west-2b", "x y", "10", "true", "é", "C:\\temp\\logs", "^\\d{1,3}$", "tab\there", "a\\", ""] + ([] if clean else [" lead", "trail ", "   "])
     pnames = {t: g.r.sample(["Size", "Name", "Enc", "Zone", "Tags", "Cfg"], g.ch([1, 2, 3])) for t in types}
     res = {}
     for i in range(g.ch([1, 2, 3, 4, 5])):
